@@ -40,12 +40,13 @@ func TestC08(t *testing.T) {
 		res := storeh.Run(t, rng, cfg, build+1+rng.Intn(8), gen)
 		w.Add(res.Term, res.Descr, class+fmt.Sprint(res.Descr["ops"]), res.DelOK > 0)
 		w.Count("batch", fmt.Sprint(cfg.Batch))
+		w.Count("datastore_flavour_ctxds", fmt.Sprint(cfg.CtxDS))
 		w.Count("deletes_ok", fmt.Sprint(res.DelOK))
 		w.Count("deletes", fmt.Sprint(res.Deletes))
 	}
 	cfgOf := func(u int) storeh.Config {
 		return storeh.Config{Batch: []int{1, 2, 3, 5, 64}[rng.Intn(5)], Cache: []int{4, 8, 512}[rng.Intn(3)], ICache: []int{4, 2048}[rng.Intn(2)],
-			U: u, NH: rng.Intn(3), ProbeEvery: true, Ranges: 2}
+			U: u, NH: rng.Intn(3), ProbeEvery: true, Ranges: 2, CtxDS: rng.Bool()}
 	}
 	n := 110
 	if emit.Thorough() {
